@@ -93,18 +93,25 @@ type StructInv struct {
 }
 
 type Specs struct {
-	Funcs    map[string]*FuncContract // by key "pkgname.Recv.Name" / "pkgname.Name"
-	Macros   map[string]*MacroDef     // "Name" or "Recv.Name"
-	Ghosts   map[string]*GhostField   // "Type.name"
-	SMT      []string                 // raw prelude lines
-	Axioms   []AxiomDef
-	Erase    []string // patterns of erased callees
-	Pure     []string // patterns of callees assumed pure with unconstrained result
-	SMTFuns  map[string]string        // function symbol -> result sort
-	Invs     []*StructInv
-	Files    []string
-	PropsOf  map[string][]string
-	NonNil   []string // package-level variables assumed non-nil (library sentinels)
+	Funcs   map[string]*FuncContract // by key "pkgname.Recv.Name" / "pkgname.Name"
+	Macros  map[string]*MacroDef     // "Name" or "Recv.Name"
+	Ghosts  map[string]*GhostField   // "Type.name"
+	SMT     []string                 // raw prelude lines
+	Axioms  []AxiomDef
+	Erase   []string          // patterns of erased callees
+	Pure    []string          // patterns of callees assumed pure with unconstrained result
+	SMTFuns map[string]string // function symbol -> result sort
+	Invs    []*StructInv
+	Files   []string
+	PropsOf map[string][]string
+	NonNil  []string // package-level variables assumed non-nil (library sentinels)
+	Guarded map[string]GuardDef
+}
+
+// GuardDef: accesses to a package-level variable are obligations "the mutex is held".
+type GuardDef struct {
+	Lock  string // package-level sync.Mutex variable (same package)
+	Props []string
 }
 
 type AxiomDef struct {
@@ -221,7 +228,7 @@ func (sp *Specs) LoadFile(path, pkgName string) error {
 		switch word {
 		case "func", "extern", "iface":
 			hdr := t
-			fc := &FuncContract{Loops: map[int]*LoopSpec{}, Branches: map[string][]*Clause{}, File: path, Line: l.n, Header: t, PkgName: pkgName}
+			fc := &FuncContract{Loops: map[int]*LoopSpec{}, Branches: map[string][]*Clause{}, File: path, Line: l.n, Header: t, PkgName: pkgName, Extern: pkgName == "spec"}
 			if word == "extern" {
 				fc.Extern = true
 				hdr = strings.TrimSpace(strings.TrimPrefix(rest, "func"))
@@ -383,6 +390,25 @@ func (sp *Specs) LoadFile(path, pkgName string) error {
 			cur = nil
 		case "erase":
 			sp.Erase = append(sp.Erase, splitList(rest)...)
+			cur = nil
+		case "guarded_by":
+			// guarded_by lock: a, b   [; C19]
+			parts := strings.SplitN(rest, ":", 2)
+			if len(parts) != 2 {
+				return fail("guarded_by lock: vars")
+			}
+			vars := parts[1]
+			var props []string
+			if j := strings.Index(vars, ";"); j >= 0 {
+				props = splitList(vars[j+1:])
+				vars = vars[:j]
+			}
+			if sp.Guarded == nil {
+				sp.Guarded = map[string]GuardDef{}
+			}
+			for _, v := range splitList(vars) {
+				sp.Guarded[pkgName+"."+v] = GuardDef{Lock: strings.TrimSpace(parts[0]), Props: props}
+			}
 			cur = nil
 		case "global_nonnil":
 			sp.NonNil = append(sp.NonNil, splitList(rest)...)
@@ -645,6 +671,9 @@ func LoadSpecs(specDir string, pkgDirs map[string]string) (*Specs, error) {
 }
 
 func matchPattern(pat, name string) bool {
+	if strings.HasPrefix(pat, "*") && len(pat) > 1 {
+		return strings.HasSuffix(name, pat[1:])
+	}
 	if strings.HasSuffix(pat, "*") {
 		return strings.HasPrefix(name, strings.TrimSuffix(pat, "*"))
 	}
